@@ -49,7 +49,7 @@ impl Scenario {
         let u8s = |x: &Value| -> Vec<u8> { x.as_array().unwrap().iter().map(|y| y.as_u64().unwrap() as u8).collect() };
         let i64s = |x: &Value| -> Vec<i64> { x.as_array().unwrap().iter().map(|y| y.as_i64().unwrap()).collect() };
         let load = |s: &str| -> Load {
-            if s == "None" { Load::None } else if s == "SdnAlways" { Load::SdnAlways } else {
+            if s == "None" { Load::None } else if s == "SdnAlways" { Load::SdnAlways } else if s == "SdnLong" { Load::SdnLong } else {
                 let n: u8 = s.trim_end_matches(')').split('(').nth(1).unwrap().parse().unwrap();
                 if s.starts_with("SrdAlways") { Load::SrdAlways(n) } else { Load::SrdEvery3(n) }
             }
@@ -155,7 +155,8 @@ pub fn scenario_set(tier: Tier, with_loads: bool) -> Vec<Scenario> {
                                 if tier == Tier::Thorough && (gap != 1 || baud != 1) && addrs.len() > 2 && phases.len() == 1 {
                                     continue;
                                 }
-                                let loads: Vec<Vec<Load>> = if with_loads { vec![vec![Load::None], vec![Load::SdnAlways, Load::None], vec![Load::SrdAlways(40)]] } else { vec![vec![Load::None]] };
+                                // SdnLong: 249-byte own telegrams (the predicted end of an own transmission matters: found by a seeded change)
+                                let loads: Vec<Vec<Load>> = if with_loads { vec![vec![Load::None], vec![Load::SdnAlways, Load::None], vec![Load::SrdAlways(40)], vec![Load::SdnLong, Load::None]] } else { vec![vec![Load::None]] };
                                 for load in loads {
                                     let mut lates: Vec<Vec<(usize, i64)>> = vec![vec![]];
                                     if gap == 1 && baud == 1 && phases.len() > 1 {
@@ -667,7 +668,8 @@ pub fn c13_check(run: &W3Run, sc: &Scenario) -> Result<(), (String, String)> {
         let mut visits: Vec<(i64, Vec<(i64, bool)>)> = vec![]; // (receipt, requests (start, is_gap_poll))
         for (sa, f, s, e) in &run.log {
             match f {
-                Some(crate::refcodec::RFrame::Token { da, sa: tsa }) if *da == a && *tsa != a => {
+                // (a station that is alone in the ring passes the token to itself: that is its receipt)
+                Some(crate::refcodec::RFrame::Token { da, sa: tsa }) if *da == a && (*tsa != a || n == 1) => {
                     // a repeated pass is not a new receipt
                     if receipts.last().map(|r| e - r > slot / 2).unwrap_or(true) {
                         receipts.push(*e);
@@ -701,7 +703,10 @@ pub fn c13_check(run: &W3Run, sc: &Scenario) -> Result<(), (String, String)> {
         }
         // rule 3: no starvation — the application is asked at least once per visit
         let nvis = visits.len() as u64;
-        if nvis >= 4 && run.apps[i].calls + 2 < nvis {
+        // (slack: the visit that is still running at the horizon, a visit cut short by the convergence mark;
+        // for a lone station also the two claim tokens, which are not visits)
+        let slack = if n == 1 { 4 } else { 2 };
+        if nvis >= 4 && run.apps[i].calls + slack < nvis {
             return Err(("c13.application_starved".into(), format!("#{a}: {} token visits but the application was asked only {} times", nvis, run.apps[i].calls)));
         }
         if nvis < 3 && run.panic.is_none() {
@@ -716,7 +721,7 @@ pub fn c13_check(run: &W3Run, sc: &Scenario) -> Result<(), (String, String)> {
 
 pub fn run_c13(tier: Tier) -> ! {
     let mut scenarios = vec![];
-    let sets: Vec<Vec<u8>> = vec![vec![1, 2], vec![0, 5], vec![2, 4, 5], vec![0, 1, 5], vec![0, 2, 3, 5], vec![1, 3, 4]];
+    let sets: Vec<Vec<u8>> = vec![vec![1, 2], vec![0, 5], vec![2, 4, 5], vec![0, 1, 5], vec![0, 2, 3, 5], vec![1, 3, 4], vec![2], vec![0], vec![5]];
     let loads: Vec<Vec<Load>> = vec![
         vec![Load::SdnAlways],
         vec![Load::SrdAlways(40)],
@@ -728,7 +733,11 @@ pub fn run_c13(tier: Tier) -> ! {
     ];
     for addrs in &sets {
         for load in &loads {
-            for ttr in [Some(256u32), Some(2000), None] {
+            for ttr in [Some(256u32), Some(400), Some(2000), None] {
+                // 400 bit: only for the lone stations (one GAP poll alone exceeds it: every visit is late)
+                if ttr == Some(400) && addrs.len() > 1 {
+                    continue;
+                }
                 for divs in [vec![16i64], vec![8], vec![16, 8]] {
                     for slot_bits in [100u16, 300] {
                         let mut sc = Scenario { addrs: addrs.clone(), hsa: 6, gap: 1, baud: 1, slot_bits, ttr, divs: divs.clone(), phases: vec![0, 1, 2], loads: load.clone(), late: vec![], responders: vec![(40, 11), (41, slot_bits as u32 - 33), (42, 0)] };
